@@ -183,3 +183,59 @@ def _sample_dis(rnd):
     img = bytearray(rnd.getrandbits(8) for _ in range(n + rnd.choice([0, 7, 300])))
     img[0x28:0x2C] = struct.pack("<I", n)
     return {"self": o, "image": bytes(img)}
+
+
+# ----------------------------------------------------------------------------------------------------------------------
+# Relocation table (multicore / TrustZone images): every entry describes the bytes that were emitted for its image
+# ----------------------------------------------------------------------------------------------------------------------
+from spsdk.image.mbi.mbi_classes import MultipleImageEntry, MultipleImageTable  # noqa: E402
+
+inline("spsdk.image.mbi.mbi_classes:MultipleImageTable.entries", "spsdk.image.mbi.mbi_classes:MultipleImageTable.header_version",
+       "spsdk.image.mbi.mbi_classes:MultipleImageTable.reloc_table", "spsdk.image.mbi.mbi_classes:MultipleImageEntry.is_load",
+       "spsdk.image.mbi.mbi_classes:MultipleImageEntry.flags", "spsdk.image.mbi.mbi_classes:MultipleImageEntry.src_addr",
+       "spsdk.image.mbi.mbi_classes:MultipleImageEntry.dst_addr", "spsdk.image.mbi.mbi_classes:MultipleImageEntry.size",
+       "spsdk.image.mbi.mbi_classes:MultipleImageEntry.image", "spsdk.image.mbi.mbi_classes:MultipleImageEntry.export_entry",
+       "spsdk.image.mbi.mbi_classes:MultipleImageEntry.export_image")
+# image lengths: every residue mod 4 (the padding cases) and a longer one; contents, addresses and the start address are arbitrary
+ENTRY = Obj(MultipleImageEntry, _img=Union[Bytes(1), Bytes(4), Bytes(6), Bytes(7), Bytes(41)], _src_addr=U32, _dst_addr=U32, _flags=Const(1))
+
+
+def TABLE(k):
+    return Obj(MultipleImageTable, _entries=ListOf(ENTRY, k), start_address=U32)
+
+
+def pad4(n):
+    return (n + 3) // 4 * 4
+
+
+def entry_fields(blob, pos):
+    """(source, destination, size, flags) of the 16-byte relocation entry at pos, as the ROM reads it."""
+    return unpack_from("<4I", blob, pos)
+
+
+def _mk_table(rnd):
+    t = MultipleImageTable()
+    for i in range(rnd.randrange(1, 4)):
+        t.add_entry(MultipleImageEntry(bytes(rnd.getrandbits(8) for _ in range(rnd.choice([1, 4, 5, 30, 366]))), 0x80000 + 0x1000 * i))
+    return t
+
+
+@contract("spsdk.image.mbi.mbi_classes:MultipleImageTable.export", split=3)
+def _(self: Union[TABLE(1), TABLE(2), TABLE(3)], start_addr: Range(0, 0x0FFFFFFF)) -> bytes:
+    let(k=len(self._entries))
+    let(imgs_len=pad4(len(self._entries[0]._img)) + (pad4(len(self._entries[1]._img)) if k > 1 else 0) + (pad4(len(self._entries[2]._img)) if k > 2 else 0))
+    ensures(len(result) == imgs_len + 16 * k + 16, label="images-then-entries-then-header")
+    ensures(unpack_from("<4I", result, len(result) - 16) == (0x4C54424C, 0, k, start_addr + imgs_len), label="header-marker-version-count-pointer-to-entries")
+    # entry i: its source range lies inside the emitted images, holds exactly image i, and starts where image i-1 (padded to 4) ends
+    ensures(all(entry_fields(result, imgs_len + 16 * i)[2] == len(self._entries[i]._img) and entry_fields(result, imgs_len + 16 * i)[1] == self._entries[i]._dst_addr
+                and entry_fields(result, imgs_len + 16 * i)[3] == 1 for i in range(k)), label="entry-size-destination-flags")
+    ensures(entry_fields(result, imgs_len)[0] == start_addr and result[0: len(self._entries[0]._img)] == self._entries[0]._img, label="entry-0-source-holds-image-0")
+    ensures(implies(k > 1, entry_fields(result, imgs_len + 16)[0] == start_addr + pad4(len(self._entries[0]._img))
+                    and result[pad4(len(self._entries[0]._img)): pad4(len(self._entries[0]._img)) + len(self._entries[1]._img)] == self._entries[1]._img),
+            label="entry-1-source-holds-image-1")
+    ensures(implies(k > 2, entry_fields(result, imgs_len + 32)[0] == start_addr + pad4(len(self._entries[0]._img)) + pad4(len(self._entries[1]._img))
+                    and result[pad4(len(self._entries[0]._img)) + pad4(len(self._entries[1]._img)):
+                               pad4(len(self._entries[0]._img)) + pad4(len(self._entries[1]._img)) + len(self._entries[2]._img)] == self._entries[2]._img),
+            label="entry-2-source-holds-image-2")
+    modifies(self.start_address, self._entries[0]._src_addr, self._entries[1]._src_addr, self._entries[2]._src_addr)
+    sample_with(lambda rnd: {"self": _mk_table(rnd), "start_addr": rnd.choice([0, 0x400, 0x3FC])})
